@@ -652,8 +652,9 @@ func (b *BlockWise[C]) getPayloadFromCachedReceivedMessage(r, cachedReceivedMess
 			return nil, 0, fmt.Errorf("received message contains ETAG(%v) but cached received message doesn't", rETAG)
 		}
 	case !bytes.Equal(rETAG, cachedReceivedMessageETAG):
-		// ETAG was changed - drop data and set new ETAG
-		cachedReceivedMessage.SetOptionBytes(message.ETag, rETAG)
+		// ETAG was changed - drop data and take over the options (with the new ETAG) and the code of the new representation
+		cachedReceivedMessage.ResetOptionsTo(r.Options())
+		cachedReceivedMessage.SetCode(r.Code())
 		if err := payloadFile.Truncate(0); err != nil {
 			return nil, 0, fmt.Errorf("cannot truncate cached request: %w", err)
 		}
